@@ -9,7 +9,6 @@ package main
 
 import (
 	"archive/tar"
-	"net/http"
 	"bytes"
 	"crypto/sha256"
 	"encoding/hex"
@@ -25,6 +24,7 @@ import (
 	"time"
 
 	"chainguard.dev/apko/pkg/apk/apk"
+	"chainguard.dev/apko/pkg/build/types"
 )
 
 type reproVariant struct {
@@ -40,6 +40,7 @@ type reproVariant struct {
 	Reps       int    `json:"reps"` // builds inside the child (in-process repetition)
 	EnvNoise   bool   `json:"env_noise"`
 	SlowArch   string `json:"slow_arch,omitempty"` // HTTP only: requests for this architecture are delayed (controls which architecture finishes last)
+	SlowRepo   string `json:"slow_repo,omitempty"` // HTTP only: the index of this repository answers late (controls which repository's index is ready last)
 }
 
 type reproCase struct {
@@ -49,6 +50,10 @@ type reproCase struct {
 	// comes from the environment, not from an option) and further keyring entries
 	SDE       int64 `json:"sde,omitempty"`
 	ExtraKeys int   `json:"extra_keys,omitempty"`
+	// further repositories, some re-offering a (name, version) of the primary with other contents (repro_dims.go)
+	Mirrors []reproMirror `json:"mirrors,omitempty"`
+	// contents.baseimage + lock file (repro_dims.go)
+	Base *reproBase `json:"base,omitempty"`
 }
 
 type reproSuite struct{}
@@ -77,6 +82,20 @@ func (reproSuite) Gen(r *Rng, i int, tier string) any {
 	}
 	http := r.Chance(50)
 	tarball := r.Chance(25)
+	switch k := r.Intn(100); {
+	case k < 30:
+		c.Mirrors = genReproMirrors(r, &c.Img)
+		http = r.Chance(70)
+	case k < 45:
+		c.Base = genReproBase(r)
+		c.Img.IC.Layering = nil // unsupported on top of a base image
+		c.Img.IC.Accounts = types.ImageAccounts{}
+		c.ExtraKeys = 0
+		if r.Bool() {
+			last := &c.Img.Pkgs[len(c.Img.Pkgs)-1]
+			last.Deps = append(append([]string{}, last.Deps...), c.Base.Pkgs[0].Name) // satisfied by the base image only
+		}
+	}
 	base := reproVariant{Name: "base", GOMAXPROCS: 1, TZ: "UTC", Umask: 0o022, Cwd: "cwd-a", Tmp: "tmp-a", Cache: "none", HTTP: http, Tarball: tarball, Reps: 1}
 	c.Variants = append(c.Variants, base)
 	v2 := base
@@ -91,7 +110,15 @@ func (reproSuite) Gen(r *Rng, i int, tier string) any {
 		vb.Name, vb.SlowArch, vb.GOMAXPROCS = "slow-last-arch", c.Img.Archs[len(c.Img.Archs)-1], 4
 		c.Variants = append(c.Variants, va, vb)
 	}
-	if http {
+	if http && len(c.Mirrors) > 0 {
+		// each repository in turn is the one whose index is ready last
+		for _, n := range c.repoNames() {
+			v := base
+			v.Name, v.SlowRepo, v.GOMAXPROCS = "slow-repo-"+n, n, Pick(r, []int{2, 4, 16})
+			c.Variants = append(c.Variants, v)
+		}
+	}
+	if http && (len(c.Mirrors) == 0 || r.Chance(40)) {
 		for _, cm := range []string{"cold", "warm", "offline"} {
 			v := base
 			v.Name, v.Cache, v.GOMAXPROCS = "cache-"+cm, cm, Pick(r, []int{1, 4, 16})
@@ -127,14 +154,24 @@ func (reproSuite) Run(raw json.RawMessage) []Step {
 	repoDir := filepath.Join(work, "repo")
 	repo := BuildSynthRepo(c.Img.Pkgs, c.Img.Archs)
 	repo.WriteTo(repoDir)
+	reproWriteRepos(&c, repoDir)
 	caseFile := filepath.Join(work, "case.json")
 	os.WriteFile(caseFile, raw, 0o644)
+	dims := []string{fmt.Sprintf("repos:%d", 1+len(c.Mirrors)), fmt.Sprintf("base-image:%v", c.Base != nil)}
+	if c.Base != nil {
+		if why := reproPrepareBase(&c, repoDir); why != "" {
+			h := sha256.Sum256(raw)
+			return []Step{{Line: "x.repro\t" + hex.EncodeToString(h[:8]), Go: "all-variants-failed", Mode: "oracle-go", GoSpec: "pass", NoImpl: true, Trivial: true,
+				Desc: "contents.baseimage case that cannot be prepared: " + why, Tags: append(dims, "result:base-not-prepared")}}
+		}
+	}
 	cacheDir := filepath.Join(work, "cache")
 	self, _ := os.Executable()
 	results := map[string]map[string]string{}
 	var errs []string
 	order := []string{}
 	offlineFailed := false
+	leak := "" // a variant's private scratch location found in an output
 	for vi, v := range c.Variants {
 		cwd := filepath.Join(work, v.Cwd)
 		tmp := filepath.Join(work, v.Tmp)
@@ -182,6 +219,8 @@ func (reproSuite) Run(raw json.RawMessage) []Step {
 		for _, l := range strings.Split(out.String(), "\n") {
 			if k, val, ok := strings.Cut(l, "\t"); ok && strings.HasPrefix(k, "out:") {
 				m[strings.TrimPrefix(k, "out:")] = val
+			} else if ok && k == "leak:" && leak == "" {
+				leak = v.Name + ": " + val
 			}
 		}
 		results[v.Name] = m
@@ -200,6 +239,9 @@ func (reproSuite) Run(raw json.RawMessage) []Step {
 		// success/failure between variants is
 		if len(errs) == nonOffline {
 			goOut = "all-variants-failed"
+			if os.Getenv("VERIF_REPRO_DEBUG") != "" {
+				fmt.Fprintln(os.Stderr, "all variants failed:", dims, errs[0])
+			}
 		} else {
 			goOut = "diverged: some variants failed: " + strings.Join(errs, " | ")
 			verdict = "fail:" + goOut
@@ -214,10 +256,14 @@ func (reproSuite) Run(raw json.RawMessage) []Step {
 			}
 		}
 	}
+	if leak != "" && verdict == "pass" {
+		goOut = "scratch-path: " + leak
+		verdict = "fail:" + goOut
+	}
 	// F01b: a multi-arch bundle tarball whose entries are the same but in a different order
 	// (go-containerregistry's tarball writer ranges over a map of images)
 	goClass := ""
-	if verdict != "pass" && len(errs) == 0 && len(c.Img.Archs) >= 2 && len(order) > 0 {
+	if verdict != "pass" && leak == "" && len(errs) == 0 && len(c.Img.Archs) >= 2 && len(order) > 0 {
 		only := true
 		base := results[order[0]]
 		for _, name := range order {
@@ -249,7 +295,7 @@ func (reproSuite) Run(raw json.RawMessage) []Step {
 	h := sha256.Sum256(raw)
 	return []Step{{Line: "x.repro\t" + hex.EncodeToString(h[:8]), Go: goOut, Mode: "oracle-go", GoSpec: verdict, GoClass: goClass, NoImpl: true, Trivial: goOut == "all-variants-failed",
 		Desc: fmt.Sprintf("%d pkgs, world %v, archs %v, %s, sbom=%v, %d variants, %d output files", len(c.Img.Pkgs), c.Img.IC.Contents.Packages, c.Img.Archs, layers, c.Img.SBOM, len(c.Variants), nfiles),
-		Tags: []string{"archs:" + fmt.Sprint(len(c.Img.Archs)), "layers:" + layers, "result:" + strings.SplitN(goOut, ":", 2)[0], fmt.Sprintf("variants:%d", len(c.Variants)), fmt.Sprintf("offline-failed:%v", offlineFailed)}}}
+		Tags: append(dims, "archs:" + fmt.Sprint(len(c.Img.Archs)), "layers:" + layers, "result:" + strings.SplitN(goOut, ":", 2)[0], fmt.Sprintf("variants:%d", len(c.Variants)), fmt.Sprintf("offline-failed:%v", offlineFailed))}}
 }
 
 func tail(s string, n int) string {
@@ -297,21 +343,17 @@ func reproChild(args []string) {
 	v := c.Variants[vi]
 	repoDir, cacheDir := args[2], args[3]
 	syscall.Umask(v.Umask)
-	repo := loadRepoDir(repoDir)
+	rr := reproLoadRepos(&c, repoDir)
+	repo := rr.repos[reproPrimaryName]
+	needles := scratchNeedles(cacheDir)
+	ic := c.Img.IC
 	var last map[string]string
 	build1 := func(cache string) E2EOut {
 		o := E2EOpts{Archs: c.Img.Archs, SBOM: c.Img.SBOM, Tarball: v.Tarball, ExtraKeys: c.ExtraKeys}
-		if v.HTTP {
-			o.HTTP = &SynthTransport{Repo: repo}
-			if v.SlowArch != "" {
-				slow := v.SlowArch + "/"
-				o.HTTP.Hook = func(req *http.Request, body []byte) (*http.Response, bool) {
-					if strings.HasPrefix(strings.TrimPrefix(req.URL.Path, "/"), slow) {
-						time.Sleep(120 * time.Millisecond)
-					}
-					return nil, false
-				}
-			}
+		reproOpts(&c, v, rr, &o)
+		if c.Base != nil {
+			ic = reproBaseIC(c.Img.IC, repoDir)
+			_, o.LockFile = reproBasePaths(repoDir)
 		}
 		switch cache {
 		case "cold", "warm":
@@ -319,7 +361,7 @@ func reproChild(args []string) {
 		case "offline":
 			o.CacheDir, o.Offline = cacheDir, true
 		}
-		return e2eBuildAt(c.Img.IC, repo, repoDir, o)
+		return e2eBuildAt(ic, repo, repoDir, o)
 	}
 	if v.Cache == "cold" {
 		os.RemoveAll(cacheDir)
@@ -332,6 +374,9 @@ func reproChild(args []string) {
 			os.Exit(1)
 		}
 		d := logicalDigests(out)
+		if l := scanOutputs(out, needles); l != "" {
+			fmt.Printf("leak:\t%s\n", strings.ReplaceAll(l, "\n", " "))
+		}
 		if dump := os.Getenv("VERIF_DUMP"); dump != "" {
 			for k, b := range out.Files {
 				os.MkdirAll(filepath.Dir(filepath.Join(dump, k)), 0o755)
